@@ -254,7 +254,15 @@ template <class Ad> void composite(const char* name) {
     std::string abbr; bool dim = false; if constexpr (has_unit<Q>::value) { abbr = std::string(PhQ::Abbreviation(Q::Unit())); dim = true; }
     std::ostringstream os; os << q; const char* forms[5] = {"Print", "JSON", "XML", "YAML", "stream"}; std::string texts[5] = {q.Print(), q.JSON(), q.XML(), q.YAML(), os.str()};
     for (int f = 0; f < 5; f++) { bool ok; std::string t = templ(texts[f], nums, abbr, ok);
-      printf("{\"e\":\"Composite\",\"type\":\"%s\",\"num\":\"%s\",\"form\":\"%s\",\"dimensional\":%s,\"numbers_ok\":%s,\"template\":\"%s\",\"raw\":\"%s\"}\n", name, NumName<T>::c, forms[f], dim ? "true" : "false", ok ? "true" : "false", jesc(t).c_str(), f == 1 ? jesc(texts[f]).c_str() : ""); } }
+      printf("{\"e\":\"Composite\",\"type\":\"%s\",\"num\":\"%s\",\"form\":\"%s\",\"dimensional\":%s,\"numbers_ok\":%s,\"template\":\"%s\",\"raw\":\"%s\"}\n", name, NumName<T>::c, forms[f], dim ? "true" : "false", ok ? "true" : "false", jesc(t).c_str(), f == 1 ? jesc(texts[f]).c_str() : ""); }
+    // the forms that take a unit: the same grammar around the number strings of Value(unit) and that unit's abbreviation
+    if constexpr (has_unit<Q>::value) { using UT = decltype(Q::Unit()); const size_t nunits = PhQ::Internal::Abbreviations<UT>.size();
+      for (int ui = 0; ui < 2; ui++) { UT u = Q::Unit(); if (ui == 1) { if (nunits < 2) continue; u = static_cast<UT>(static_cast<int>(Q::Unit()) == 0 ? 1 : 0); }
+        T w[9]; auto vu = q.Value(u); put(vu, w); std::vector<std::string> un; for (int i = 0; i < N; i++) un.push_back(PhQ::Print(w[i])); std::string ua(PhQ::Abbreviation(u));
+        const char* uforms[4] = {"Print_unit", "JSON_unit", "XML_unit", "YAML_unit"}; std::string ut[4] = {q.Print(u), q.JSON(u), q.XML(u), q.YAML(u)};
+        for (int f = 0; f < 4; f++) { bool ok; std::string t = templ(ut[f], un, ua, ok);
+          printf("{\"e\":\"Composite\",\"type\":\"%s\",\"num\":\"%s\",\"form\":\"%s\",\"unit\":\"%s\",\"dimensional\":true,\"numbers_ok\":%s,\"template\":\"%s\",\"raw\":\"%s\"}\n", name, NumName<T>::c, uforms[f], ui ? "alt" : "std",
+                 ok ? "true" : "false", jesc(t).c_str(), (f == 1 && variant == 0) ? jesc(ut[f]).c_str() : ""); } } } }
 }
 
 // ---- C17: layout facts ----
